@@ -155,7 +155,8 @@ bool ta_is_live(const void* p);
 size_t ta_block_size(const void* p); /* (size_t)-1 if unknown */
 uint64_t ta_block_serial(const void* p);
 void ta_set_free_hook(void (*hook)(void* p, size_t size));
-void ta_set_record_only(bool on); /* C20: record request sizes then refuse everything */
+void ta_set_record_only(bool on);
+void ta_set_zero_null(bool on); /* malloc(0)/realloc(NULL,0) return NULL, as some allocators do */ /* C20: record request sizes then refuse everything */
 uint64_t ta_last_request_size(void);
 const char* ta_ring_dump(void);   /* last events, for witnesses */
 void* ta_malloc(size_t n);
